@@ -147,7 +147,11 @@ func factsOf(d model.Doc, l model.Layout, lines []model.LineInfo, ri int) styleF
 		if e.Kind == model.KRange {
 			f.clock[fmt.Sprint(e.End.Is12h)] = true
 		}
-		f.dash[fmt.Sprint(e.Spaces())] = true
+		if e.SpacesKnown() {
+			f.dash[fmt.Sprint(e.Spaces())] = true
+		} else { // a lopsided dash exhibits either style
+			f.dash["true"], f.dash["false"] = true, true
+		}
 		if e.Kind == model.KOpen {
 			f.qmarks[fmt.Sprint(e.QMarks)] = true
 		}
